@@ -508,3 +508,10 @@ func (w *World) PutSP(sp interface{ GetEntityID() string }, appID string) {
 	}
 	w.mu.Unlock()
 }
+
+// RemoveSP deregisters a service provider.
+func (w *World) RemoveSP(entityID string) {
+	w.mu.Lock()
+	delete(w.sps, entityID)
+	w.mu.Unlock()
+}
